@@ -121,7 +121,78 @@ def run(ctx):
                 rc.violate("U+%04X" % ord(k_), "shown as %r, its control picture is %r" % (pairs[k_], v), c.loc(b["value"].get("sp")))
             else:
                 rc.violate("U+%04X" % ord(k_), "control character has no picture in the match", c.loc(b["value"].get("sp")))
-        rc.require(33, "table entries")
+        # every path of the function goes through that table: no early return, no branch around the mapping
+        def outside_closures(e):
+            yield e
+            if e["k"] == "closure":
+                return
+            from ..hir import children
+            for ch in children(e):
+                for x in outside_closures(ch):
+                    yield x
+        bypass = [n for n in outside_closures(b["value"]) if n["k"] in ("ret", "if", "match") and n is not b["value"]]
+        bypass = [n for n in bypass if not (n["k"] == "match" and n.get("src") in ("for", "try"))]
+        if bypass:
+            rc.violate("every path maps", "visualize_ws_and_cntrl has a branch / early return outside the per-character mapping: some text can be "
+                       "returned without its control characters replaced", c.loc(bypass[0].get("sp")))
+        else:
+            rc.inst("every path maps", c.loc(b["value"].get("sp")), "ok: the body is the mapping chain, no branch or return around it")
+        rc.require(34, "table entries + path rule")
+
+    # every piece of line text that is displayed went through the picture function
+    ru_ = ctx.rule("R14-PICTUSE", "every piece of source text handed to the snippet writers is a result of visualize_ws_and_cntrl: the text fields "
+                   "of Partition / Partition2, and the inner lines of a multi-line span")
+    VIS = "pest_typed::formatter::visualize_ws_and_cntrl"
+
+    def is_vis(e, lets):
+        while True:
+            while e["k"] in ("addr_of", "use", "cast") or (e["k"] == "block" and not e.get("stmts") and "tail" in e):
+                e = e["tail"] if e["k"] == "block" else e["e"]
+            if e["k"] == "local" and e.get("var") in lets:
+                e = lets[e["var"]]
+                continue
+            break
+        return e["k"] == "call" and e.get("callee") and strip_generics(e["callee"]["path"]) == VIS
+    for ctor, fields in (("pest_typed::formatter::Partition::<'i>::new", ("former", "latter")),
+                         ("pest_typed::formatter::Partition2::<'i>::new", ("former", "middle", "latter"))):
+        pb = c.body(ctor)
+        if pb is None:
+            ru_.violate(ctor.rsplit("::", 2)[-2], "constructor missing (anchor lost): %s" % ctor)
+            continue
+        lets = {}
+        for n in walk(pb["value"]):
+            if n["k"] == "block":
+                for st in n.get("stmts", []):
+                    if st["k"] == "let" and "init" in st and st["pat"].get("k") == "bind":
+                        lets[st["pat"]["var"]] = st["init"]
+        sts = [n for n in walk(pb["value"]) if n["k"] == "struct"]
+        for fname in fields:
+            key = "%s.%s" % (ctor.split("::")[2].split("<")[0], fname)
+            fe = next((f["e"] for sn in sts for f in sn["fields"] if f["name"] == fname), None)
+            if fe is not None and is_vis(fe, lets):
+                ru_.inst(key, c.loc(pb["value"].get("sp")))
+            else:
+                ru_.violate(key, "the displayed text field `%s` is not a result of visualize_ws_and_cntrl" % fname, c.loc(pb["value"].get("sp")))
+    dsb = g.bodies.get("pest_typed::formatter::FormatOption::<SF, MF, NF>::display_span")
+    if dsb is not None:
+        # `lines[..]` (inner lines of the collected Vec<&str>) may only be read as the argument of the picture function
+        parents = {}
+        for n in walk(dsb["value"]):
+            from ..hir import children
+            for ch in children(n):
+                parents[id(ch)] = n
+        n_inner = 0
+        for n in walk(dsb["value"]):
+            if n["k"] == "index" and "alloc::vec::Vec<&" in c.tys(n["base"].get("ty")).replace("&'_ ", "&") + "":
+                par = parents.get(id(n))
+                while par is not None and par["k"] in ("addr_of", "use", "unary"):
+                    par = parents.get(id(par))
+                n_inner += 1
+                if par is not None and par["k"] == "call" and par.get("callee") and strip_generics(par["callee"]["path"]) == VIS:
+                    ru_.inst("display_span: inner line #%d" % n_inner, c.loc(n.get("sp")))
+                else:
+                    ru_.violate("display_span: inner line #%d" % n_inner, "an inner line is used without visualize_ws_and_cntrl", c.loc(n.get("sp")))
+    ru_.require(8, "text sources")
 
     # must-show: every successful return of display_span / display_position has displayed a snippet
     rs = ctx.rule("R14-SHOW", "every normally-completing path of display_span / display_position passes through a display_snippet_* call")
